@@ -26,6 +26,7 @@
   build and the check's oracle reports the failing inputs.
 -/
 import Koreo.Lemmas.Encoder
+import Koreo.Lemmas.StaticOverlay
 import Koreo.Gen.EncoderTables
 
 namespace Koreo.C11
@@ -234,5 +235,35 @@ example : parseChars (enc (.obj [("k\"", .arr [.int (-5), .flt 12, .str "1e5", .
 /-- a nested value meeting `noExpr`, with a numeral string, a numeral-looking key, quotes in a key -/
 example : noExpr (.obj [("k\"", .arr [.str "12", .str " 12", .int (-5), .flt (-13), .null, .bool true, .arr [], .obj []]),
                         ("12", .str "a\\nb")]) = true := by decide
+
+/-! ## round 6: a static block in an overlay-type position (`return`, `overlays[].overlay`, `create.overlay`)
+
+`_overlay_indexer` takes a written map apart into a key tree and ONE positional value list, and
+`_overlay_applier` puts it together again (model: `Koreo/Overlay.lean`, C12's).  For a block whose leaves are
+literals (each leaf evaluates to itself — the leaf's own journey through `encode_cel` and celpy is
+`chars_roundtrip` above) laid onto a map that holds none of its top-level keys, the result is the base followed
+by the block **as written**: for every key text — a key `a.b` beside the chain `a → b` are two places —, every
+nesting, every leaf kind (`{}`, `[]`, `""`, `null` …).  Keys need only be distinct within each written map
+(`HDO`; a Python dict cannot be otherwise). -/
+section static_overlay
+open Koreo.Overlay
+
+theorem static_overlay_block_arrives (kvs base : Overlay.Fields) (h : HDO kvs)
+    (fresh : ∀ k ∈ JVal.keys kvs, k ∉ JVal.keys base) :
+    applier base (indexO (OSpec.ofFields kvs) 0).1 ((indexO (OSpec.ofFields kvs) 0).2.map id) = base ++ kvs := by
+  rw [applier_eq_mergeO id _ (ofFields_wf kvs h) base, mapO_id]
+  exact mergeO_static kvs h base fresh
+
+/-- the ValueFunction `return` / a first overlay onto nothing: the block itself -/
+theorem static_return_arrives (kvs : Overlay.Fields) (h : HDO kvs) :
+    applier [] (indexO (OSpec.ofFields kvs) 0).1 ((indexO (OSpec.ofFields kvs) 0).2.map id) = kvs := by
+  simpa using static_overlay_block_arrives kvs [] h (by simp [JVal.keys])
+
+/-- non-vacuity: a key that spells the path of the chain beside it, and one level down -/
+example : HDO [("a", .obj [("b", .int 1), ("c", .obj [])]), ("a.b", .int 2),
+               ("d", .obj [("a", .obj [("b", .str "x")]), ("a.b", .bool true)])] := by
+  simp [HDO, HD, JVal.keys]
+
+end static_overlay
 
 end Koreo.C11
